@@ -121,11 +121,15 @@ def ociView (layers : List Layer) (j : Nat) : Tree :=
 /-- `q` is listed by the layer or is an ancestor of a listed path -/
 def mentionedBy (l : Layer) (q : Path) : Bool := l.any fun e => e.p == q || isUnder q e.p
 
-/-- every entry's path is new when it arrives: distinct paths, a directory's own entry precedes the
-entries beneath it (excludes finding 29 and duplicate names) -/
+/-- a directory's own entry may follow entries beneath it (which created the directory implicitly): it then supplies
+the directory's metadata -/
+def upgradeOK (done : Layer) (e : Entry) : Bool := e.kind == .dir && !e.wh && !(done.any fun x => x.p == e.p)
+
+/-- every entry's path is new when it arrives — distinct paths; a whiteout or a file is not listed after entries
+beneath it (excludes finding 29 and duplicate names) -/
 def freshB : Layer → Layer → Bool
   | _, [] => true
-  | done, e :: rest => !mentionedBy done e.p && e.p != [] && freshB (done ++ [e]) rest
+  | done, e :: rest => (!mentionedBy done e.p || upgradeOK done e) && e.p != [] && freshB (done ++ [e]) rest
 
 /-- nothing is listed beneath a whiteout or a non-directory of the same tar (excludes finding 30 and
 tars that put entries below a file) -/
@@ -168,12 +172,12 @@ def H (layers : List Layer) (j : Nat) : Bool := Hfrom [] (layersNewestFirst laye
 
 /-! ### class predicates of the known findings (which clause of `H` fails, and how) -/
 
-/-- an entry whose path was already created earlier in the same tar — implicitly as a parent, or by an
-entry of the other whiteout-ness — is dropped (finding 29) -/
+/-- an entry whose path was already created earlier in the same tar — implicitly as a parent (unless the entry is the
+directory's own, which is honoured), or by an entry of the other whiteout-ness — is dropped (finding 29) -/
 def droppedEntry : Layer → Layer → Bool
   | _, [] => false
   | done, e :: rest =>
-    (done.any fun x => isUnder e.p x.p || (x.p == e.p && x.wh != e.wh)) || droppedEntry (done ++ [e]) rest
+    (!upgradeOK done e && done.any fun x => isUnder e.p x.p || (x.p == e.p && x.wh != e.wh)) || droppedEntry (done ++ [e]) rest
 
 /-- exact duplicates (same path, same whiteout-ness): first wins in the code, last in a tar extraction; ill-formed -/
 def duplicateEntry : Layer → Layer → Bool
